@@ -118,14 +118,23 @@ Definition norm_attrs (drop_null : bool) (a : attrs) : attrs :=
 Fixpoint norm_tree (drop_null : bool) (t : tree) : tree :=
   match t with T _ n a ks => T None n (norm_attrs drop_null a) (map (norm_tree drop_null) ks) end.
 
+(* attributes are a finite map (the order of __dict__ is not part of the property): compare sorted *)
+Fixpoint sort_tree (t : tree) : tree :=
+  match t with T _ n a ks => T None n (sort_items a) (map sort_tree ks) end.
+
 Definition same_tree (drop_null : bool) (t : tree) (rebuilt : res tree) : bool :=
   match rebuilt with
-  | Ret t' => tree_eqb t' (norm_tree drop_null t)
+  | Ret t' => tree_eqb (sort_tree t') (norm_tree drop_null t)
   | Raise _ => false
   end.
 
+(* the frame formats reserve the column names of the path and the name: no attribute called "path" *)
+Definition frame_safe (t : tree) : bool :=
+  forallb (fun n => negb (existsb (str_eqb s_path) (map fst (tattrs n)))) (pre t).
+
 Definition prop_rt_path (drop_null : bool) (sep : str) (t : tree) (rebuilt : res tree) : bool :=
-  if valid_tree t && sep_safe sep t then same_tree drop_null t rebuilt else true.
+  if valid_tree t && sep_safe sep t && (negb drop_null || frame_safe t)
+  then same_tree drop_null t rebuilt else true.
 Definition prop_rt_nested (t : tree) (rebuilt : res tree) : bool :=
   if valid_tree t then same_tree false t rebuilt else true.
 
